@@ -9,6 +9,11 @@ package providers
 //@ prop C01 C08
 //@ nomod
 
+// redeemCode dereferences the session it gets whenever there is no error: every provider's Redeem owes it one
+//@ iface Provider.Redeem
+//@ prop C14 C19
+//@ ensures[no-error-means-a-session] ret1 == nil ==> ret0 != nil
+
 //@ stable OIDCProvider.* ProviderData.Verifier ProviderData.AllowedGroups ProviderData.EmailClaim ProviderData.UserClaim
 //@ stable ProviderData.GroupsClaim ProviderData.AllowUnverifiedEmail ProviderData.ProfileURL ProviderData.SkipClaimsFromProfileURL
 //@ stable ProviderData.CodeChallengeMethod ProviderData.LoginURL ProviderData.RedeemURL ProviderData.ClientID
@@ -46,6 +51,7 @@ package providers
 
 //@ func (*OIDCProvider).createSession
 //@ prop C04 C14
+//@ ensures[no-error-means-a-session] ret1 == nil ==> ret0 != nil
 //@ at call buildSessionFromClaims assert[claims-only-from-verified-token-or-tokenless-refresh] ret1(verifyIDToken) == nil
 //@     || (refresh && ret1(verifyIDToken) == ErrMissingIDToken)
 //@ at call buildSessionFromClaims assert[claims-from-this-tokens-id-token] arg(buildSessionFromClaims, 1) == ret(getIDToken)
@@ -83,6 +89,7 @@ package providers
 
 //@ func (*ProviderData).buildSessionFromClaims
 //@ prop C04 C14
+//@ ensures[no-error-means-a-session] ret1 == nil ==> ret0 != nil
 //@ ensures[unverified-email-refused] ret1 == nil && rawIDToken != "" && p.EmailClaim == "email" && !p.AllowUnverifiedEmail ==>
 //@     called(GetClaimInto#1) && ret1(GetClaimInto#1) == nil && arg(GetClaimInto#1, 0) == "email_verified"
 //@ ensures[claim-error-means-no-session] ret1 != nil ==> ret0 == nil
@@ -181,6 +188,7 @@ package providers
 
 //@ func (*MicrosoftEntraIDProvider).redeemWithFederatedToken
 //@ prop C04 C05 C14
+//@ ensures[no-error-means-a-session] ret1 == nil ==> ret0 != nil
 //@ ensures[session-only-from-oidc-session-creation] ret0 != nil ==> called(createSession) && ret0 == ret0(createSession) && ret1 == ret1(createSession)
 //@     && arg(createSession, 0) == old(p.OIDCProvider) && !arg(createSession, 3)
 
